@@ -98,9 +98,16 @@ func c14Join(w *mon.W, idx int) {
 		w.Fail("Join/input-modified", mon.D{"width": width, "n": n})
 	}
 	w.Op = "Getw"
+	qGot, gGot := dirtyW(got) // the bitmap as a view into a larger array
+	hGot := gen.HashWords(qGot)
+	defer func() {
+		if !gGot() || gen.HashWords(qGot) != hGot {
+			w.Fail("Getw/wrote-to-or-outside-len-of-argument", mon.D{"width": width, "n": n})
+		}
+	}()
 	for i := 0; i < n; i++ {
 		w.C = int64(i)
-		g := bitmap.Getw(got, int32(i), width)
+		g := bitmap.Getw(qGot, int32(i), width)
 		e := in[i]
 		if width < 64 {
 			e &= (uint64(1) << uint(width)) - 1
